@@ -16,7 +16,7 @@ def rand_state(rng, slots, dom):
         if sl.kind == "bool":
             a.append(rng.randint(0, 2))
         elif sl.kind == "int":
-            a.append(rng.choice([-1, rng.randint(0, min(200, dom.int_max))] + ([rng.randint(-1 - len(dom.int_cands), -2)] if dom.int_cands else [])))
+            a.append(rng.choice([-1] + ([rng.randint(0, min(200, dom.int_max))] if dom.int_max >= 0 else []) + ([rng.randint(-1 - len(dom.int_cands), -2)] if dom.int_cands else [])))
         elif sl.kind == "hex":
             a.append(rng.randint(0, len(dom.hex_cands)))
         elif sl.kind == "float":
